@@ -75,7 +75,11 @@ RefineCalls(t) ==
 KeyA == VStr(<<A1>>)
 KeyB == VStr(<<A1 + 1>>)
 PlainValues == IF Narrow THEN { VList(<<VInt(1)>>), VDict(<<KV(KeyA, VInt(1))>>) } ELSE
-               { VList(<<VInt(1), VStr(<<A1, A1 + 1>>)>>), VList(<<>>),
+               \* values that are equal under Python's == although of different kinds sit side by side:
+               \* a conversion that remembers earlier inputs by equality would confuse them
+               { VList(<<VBool(TRUE)>>), VList(<<VFloat(100)>>), VDict(<<KV(KeyA, VFloat(0))>>),
+                 VDict(<<KV(KeyA, VBool(FALSE))>>),
+                 VList(<<VInt(1), VStr(<<A1, A1 + 1>>)>>), VList(<<>>),
                  VDict(<<KV(KeyA, VInt(1))>>), VDict(<<KV(KeyA, VInt(1)), KV(KeyB, VList(<<VInt(1)>>))>>) }
 
 (***************************************************************************)
@@ -161,6 +165,14 @@ MakeRequiredOf(i) ==
   /\ Record([op |-> "make_required", i |-> i, out |-> IF r.ok THEN "ok" ELSE r.exc])
   /\ UNCHANGED heap
 
+\* make_required(schema, [key]) with an explicit key list
+MakeRequiredKeyOf(i) ==
+  LET r == MakeRequired(Obs(i), Some(<<KeyA>>)) IN
+  /\ Room
+  /\ IF r.ok THEN Push(r.s, NoneOpt) ELSE UNCHANGED pool
+  /\ Record([op |-> "make_required_key", i |-> i, out |-> IF r.ok THEN "ok" ELSE r.exc])
+  /\ UNCHANGED heap
+
 AliasOf(i) ==
   /\ Room
   /\ Push(SAlias("T", Obs(i)), NoneOpt)
@@ -225,7 +237,7 @@ Next ==
   \/ \E h \in HeapIdx : ListFromHeap(h) \/ DictFromHeap(h) \/ FromNativeHeap(h)
   \/ \E i \in PoolIdx, h \in HeapIdx : SubstituteHeap(i, h) \/ ValidateOp(i, h)
   \/ ~Narrow /\ \E i, j \in PoolIdx : UnionOf(i, j) \/ AddOf(i, j) \/ EqOp(i, j)
-  \/ ~Narrow /\ \E i \in PoolIdx : MakeRequiredOf(i) \/ AliasOf(i) \/ RepresentOp(i)
+  \/ ~Narrow /\ \E i \in PoolIdx : MakeRequiredOf(i) \/ MakeRequiredKeyOf(i) \/ AliasOf(i) \/ RepresentOp(i)
   \/ ~Narrow /\ \E i \in PoolIdx, sel \in {"lo", "hi"} : FakeOp(i, sel)
   \/ \E h \in HeapIdx, edit \in {"append", "pop"} : MutateHeap(h, edit)
 
